@@ -82,6 +82,14 @@ CHECKS = {
             "read-back for all lists <= 3 (MC_C15); TLC judges real CapabilitiesResponse / get_capabilities() results (Trace_C15)",
             "Exhaustive small-list model check; real parser results for lists <= 12 compared by TLC with the merge of the records "
             "interpreted alone, and get_capabilities() attributes compared across every split point.", "5 C15"),
+    "C16": ("TLA+ AcDevice.tla (client attributes/_updated_properties/_supported_properties x device registers with vendor encodings, single "
+            "breeze mode): TLC checks ReadBackEqual, DeviceSingleBreeze, WriteIsUpd, NoWriteWithoutChange, ClearedByApply over all bounded "
+            "histories for six capability profiles (MC_C16); TLC-generated call histories (Gen_C16) are replayed on a real AirConditioner "
+            "against the simulated appliance; each recorded history (0xB0/0xB1 frames received, attributes, device registers after every "
+            "call) is validated by TLC against the AcDevice action of each call (Trace_C16)",
+            "Exhaustive bounded model check per capability profile; thousands of TLC-generated and directed histories of setters / apply / "
+            "refresh / get_capabilities / start_self_clean executed on the real object with TLC judging ids, exactly-once, byte-exact value "
+            "encoding, read-back and single breeze mode after every call.", "5 C16"),
 }
 
 
